@@ -2163,10 +2163,12 @@ namespace bloch::compiler {
     void SemanticAnalyser::visit(NullLiteralExpression&) {}
 
     void SemanticAnalyser::visit(VariableExpression& node) {
-        if (isDeclared(node.name) || isFunctionDeclared(node.name))
+        if (isDeclared(node.name))
             return;
         if (resolveField(node.name, node.line, node.column))
             return;
+        // The name of a function or gate is not a value: calls resolve their callee
+        // themselves and never come through here.
         throw BlochError(ErrorCategory::Semantic, node.line, node.column,
                          "Variable '" + node.name + "' not declared");
     }
